@@ -564,3 +564,142 @@ def c20_driver(ctx):
     res["samples"].append({"example_requests": [r for r, _ in model_reqs[:4]]})
     shutil.rmtree(root, ignore_errors=True)
     return res
+
+
+# ---------------------------------------------------------------- C19: lock-order graph of the C API (lexical scan)
+LOCKS = ["NEXT_HANDLE", "ARCHIVES", "FILES", "FIND_HANDLES"]
+
+
+def _functions(src):
+    """(name, body) for every fn in the file, by brace matching (strings/comments stripped first)"""
+    src = re.sub(r"//[^\n]*", "", src)
+    src = re.sub(r'"(?:[^"\\]|\\.)*"', '""', src)
+    out = []
+    for m in re.finditer(r"\bfn\s+(\w+)\s*(?:<[^>]*>)?\s*\(", src):
+        i = src.find("{", m.end())
+        semi = src.find(";", m.end())
+        if i < 0 or (0 <= semi < i):
+            continue
+        depth, j = 0, i
+        while j < len(src):
+            if src[j] == "{":
+                depth += 1
+            elif src[j] == "}":
+                depth -= 1
+                if depth == 0:
+                    break
+            j += 1
+        out.append((m.group(1), src[i + 1:j]))
+    return out
+
+
+def lock_graph(path="/repo/ffi/storm-ffi/src/lib.rs"):
+    src = open(path, errors="replace").read()
+    fns = _functions(src)
+    names = [n for n, _ in fns]
+    lockre = re.compile(r"\b(%s)\s*\.\s*lock\s*\(\s*\)" % "|".join(LOCKS))
+    direct = {n: set(lockre.findall(b)) for n, b in fns}
+    calls = {n: {c for c in re.findall(r"\b(\w+)\s*\(", b) if c in names and c != n} for n, b in fns}
+    acq = {n: set(direct[n]) for n in names}
+    changed = True
+    while changed:
+        changed = False
+        for n in names:
+            for c in calls[n]:
+                if not acq[c] <= acq[n]:
+                    acq[n] |= acq[c]
+                    changed = True
+    edges = set()
+    where = {}
+    for fname, body in fns:
+        alive = []   # (lock, var, depth)
+        depth = 0
+        seg = ""
+        for ch in body + ";":
+            if ch in ";{}":
+                s = seg.strip()
+                seg = ""
+                temps = []
+                for m in re.finditer(r"\b(%s)\s*\.\s*lock\s*\(\s*\)|\b(\w+)\s*\(" % "|".join(LOCKS), s):
+                    got = []
+                    if m.group(1):
+                        got = [m.group(1)]
+                    elif m.group(2) in names and m.group(2) != fname:
+                        got = sorted(acq[m.group(2)])
+                    for L in got:
+                        for (h, _, _) in alive + temps:
+                            edges.add((h, L))
+                            where.setdefault((h, L), "%s: holds %s, acquires %s%s" % (fname, h, L, "" if m.group(1) else " via " + m.group(2) + "()"))
+                        if m.group(1):
+                            temps.append((L, None, depth))
+                lm = re.match(r"^let\s+(?:mut\s+)?(\w+)\s*=\s*(%s)\s*\.\s*lock\s*\(\s*\)(?:\s*\.\s*unwrap\s*\(\s*\))?$" % "|".join(LOCKS), s)
+                if lm and ch == ";":
+                    alive.append((lm.group(2), lm.group(1), depth))
+                elif ch == "{" and re.match(r"^(match|if\s+let|while\s+let)\b", s) and lockre.search(s):
+                    for L in lockre.findall(s):
+                        alive.append((L, None, depth + 1))
+                for dm in re.finditer(r"\bdrop\s*\(\s*(\w+)\s*\)", s):
+                    alive = [a for a in alive if a[1] != dm.group(1)]
+                if ch == "{":
+                    depth += 1
+                elif ch == "}":
+                    depth -= 1
+                    alive = [a for a in alive if a[2] <= depth]
+            else:
+                seg += ch
+    return sorted(edges), where
+
+
+def gen_locks_lean():
+    edges, where = lock_graph()
+    idx = {n: i for i, n in enumerate(LOCKS)}
+    lines = ["/- GENERATED by tools/drivers.py:gen_locks_lean from ffi/storm-ffi/src/lib.rs (lexical lock-order scan). Do not edit. -/",
+             "import WowVerif.Lib.Graph", "namespace Wv.Gen",
+             "def lockNames : List String := [%s]" % ", ".join('"%s"' % n for n in LOCKS),
+             "/-- (held, acquired) pairs found in the source -/",
+             "def lockEdges : List (Nat × Nat) := [%s]" % ", ".join("(%d, %d)" % (idx[a], idx[b]) for a, b in edges),
+             "def lockEdgesAcyclic : Bool := Wv.Graph.acyclic %d lockEdges" % len(LOCKS), "end Wv.Gen", ""]
+    return "\n".join(lines), edges, where
+
+
+def c19_pregen(ctx=None):
+    """regenerate lean/WowVerif/Gen/Locks.lean from the C API's current source (before lake build)"""
+    text, edges, where = gen_locks_lean()
+    path = "/verif/lean/WowVerif/Gen/Locks.lean"
+    old = open(path).read() if os.path.exists(path) else None
+    if old != text:
+        open(path, "w").write(text)
+    return {"edges": [list(e) for e in edges], "where": list(where.values())}
+
+
+def c19_mt_driver(ctx):
+    """multi-threaded stress of the C API as a child process under a watchdog: a hang is a deadlock"""
+    res = {"evals": 0, "nontrivial": 0, "stats": {}, "samples": [], "oracle_fail": [], "disagreements": [], "model_cases": 0}
+    outd = os.path.join(ctx["outdir"], "mt")
+    reps = 3 if ctx["tier"] == "quick" else 12
+    for i in range(reps):
+        try:
+            p = subprocess.run([ctx["wvh"], "run", "C19MT", "--seed", str(ctx["seed"] + i), "--tier", ctx["tier"], "--out", outd],
+                               stdout=subprocess.PIPE, stderr=subprocess.PIPE, text=True, timeout=90 if ctx["tier"] == "quick" else 300)
+        except subprocess.TimeoutExpired as e:
+            phase = (e.stderr or b"").decode(errors="replace").strip().split("\n")[-1] if e.stderr else "?"
+            res["oracle_fail"].append(("ffi-call-does-not-return", "C API stress run %d hung (watchdog); last phase: %s" % (i, phase)))
+            continue
+        res["evals"] += 1
+        if p.returncode != 0:
+            res["oracle_fail"].append(("ffi-crash", "C API stress run %d exited with %d: %s" % (i, p.returncode, p.stderr[-300:])))
+            continue
+        try:
+            stt = json.load(open(os.path.join(outd, "stats.json")))
+            res["evals"] += stt.get("distribution", {}).get("c19mt.thread_rounds", 0)
+            res["nontrivial"] += 1
+            for l in open(os.path.join(outd, "oracle.txt")):
+                parts = l.rstrip("\n").split("\t", 2)
+                if len(parts) == 3 and parts[0] == "FAIL":
+                    res["oracle_fail"].append((parts[1], parts[2]))
+        except Exception:
+            pass
+    lg = c19_pregen()
+    res["stats"]["c19.lock_edges"] = len(lg["edges"])
+    res["samples"].append({"lock_order_edges": lg["where"]})
+    return res
